@@ -110,6 +110,16 @@ fn bfs_replay_inactive() -> bool {
     REPLAY.get().is_none()
 }
 
+/// E6 on whole Cli instances for a session property: two instances, every interleaving up to `depth` events
+pub fn two_instances<C: embedded_cli::service::Autocomplete + embedded_cli::service::Help>(rep: &mut Report, prop: &'static str, label: &str, cb: usize, hb: usize, events: &[Ev], depth: usize) {
+    if REPLAY.get().is_some() && crate::report::REPLAY_CASE.get().is_none() {
+        return;
+    }
+    let o = crate::e6::cli_interleavings::<C>(prop, label, cb, hb, events, depth);
+    eprintln!("  {}: evaluations={} viol={:?} {:.2}s", o.name, o.evaluations, o.viol_counts, o.wall_s);
+    rep.enumerations.push(o);
+}
+
 pub fn summary(o: &Outcome) -> String {
     format!(
         "{}: states={} transitions={} depth={} exhaustive={} cap={:?} viol={:?} {:.2}s",
@@ -123,6 +133,9 @@ pub fn c05(rep: &mut Report, tier: &str, seed: u64, prop: &'static str) {
     // bounded runs first (long lines, long sessions), then the closures
     if prop == "C05" {
         crate::checks_scale::c05_scale(rep, tier, seed);
+        // the edited line depends on this instance's keys only
+        let ev = vec![ch('a'), ch('é'), ch('𝄞'), k(Key::Bs), k(Key::Left), k(Key::Right)];
+        two_instances::<RawCommand<'static>>(rep, "C05", "RawCommand", 5, 0, &ev, if tier == "quick" { 4 } else { 5 });
     }
     let caps = caps(tier);
     let max_cb = if tier == "quick" { 6 } else { 8 };
@@ -203,6 +216,10 @@ pub fn c05(rep: &mut Report, tier: &str, seed: u64, prop: &'static str) {
 
 pub fn c10(rep: &mut Report, tier: &str, seed: u64) {
     crate::checks_scale::c10_scale(rep, tier, seed);
+    {
+        let ev = vec![ch('a'), ch('b'), k(Key::Lf), k(Key::Up), k(Key::Down)];
+        two_instances::<RawCommand<'static>>(rep, "C10", "RawCommand", 3, 6, &ev, if tier == "quick" { 5 } else { 6 });
+    }
     let caps = caps(tier);
     let mon = Mon { history: true, invariants: true, ..Default::default() };
     let alphabet = vec![ch('a'), ch('é'), k(Key::Bs), k(Key::Left), k(Key::Lf), k(Key::Up), k(Key::Down)];
@@ -256,6 +273,9 @@ pub fn c10(rep: &mut Report, tier: &str, seed: u64) {
 pub fn c01(rep: &mut Report, tier: &str, seed: u64, prop: &'static str) {
     if prop == "C01" {
         crate::checks_scale::c01_scale(rep, tier, seed);
+        // what one Cli dispatches must not depend on another Cli served in between
+        let ev = vec![ch('a'), ch('b'), ch(' '), ch('"'), k(Key::Bs), k(Key::Left), k(Key::Up), k(Key::Tab), k(Key::Lf)];
+        two_instances::<Cmd4>(rep, "C01", "derived enum Cmd4", 6, 8, &ev, if tier == "quick" { 4 } else { 5 });
     }
     let caps = caps(tier);
     let mon = feat(Mon { dispatch: true, invariants: true, ..Default::default() });
@@ -341,6 +361,10 @@ pub fn c06_alphabet() -> Vec<Ev> {
 pub fn c06(rep: &mut Report, tier: &str, seed: u64, prop: &'static str) {
     if prop == "C06" || prop == "C15" {
         crate::checks_scale::c06_scale(rep, tier, seed, prop);
+    }
+    if prop == "C06" {
+        let ev = vec![ch('a'), ch('é'), k(Key::Bs), k(Key::Left), k(Key::Up), k(Key::Tab), kh(Key::Lf, HMode::Write("o")), wr("x"), Ev::SetPrompt("é> ")];
+        two_instances::<Cmd4>(rep, "C06", "derived enum Cmd4", 4, 6, &ev, if tier == "quick" { 3 } else { 4 });
     }
     let caps = caps(tier);
     let mon = feat(if prop == "C15" {
